@@ -332,6 +332,43 @@ def register(GROUPS, c2g, incs, REPO, HERE, STRUCTS, Group):
                     raise c2g.Unsupported("%s: fopen is not called with a literal mode" % fname)
                 lits.append(str_code(json.loads(a["value"])))
             modes[fname] = lits
+        # ... and how the result of each of these fopen calls is judged: the statement right behind `mpifile->file = fopen (..)` is
+        # `errval = <expression>` (rank > 0 in its turn) resp. `if (<condition>) { .. SC_ABORT .. }` (re-open of rank 0); the bodies
+        # of the fallback themselves are not translated (goto), these two expressions per function are
+        judge = []
+        for fname, tag in (("sc_io_read_at_all", "read"), ("sc_io_write_at_all", "write")):
+            F = c2g.find_function(c2g.clang_ast(f, fname, cfg["C"]), fname)
+            found = {"errval": [], "reopen": []}
+
+            def is_fopen_assign(st):
+                st = c2g.skip_parens(st)
+                return st.get("kind") == "BinaryOperator" and st.get("opcode") == "=" and \
+                    sl.callee_name(sl.strip(st["inner"][1])) == "fopen"
+
+            def visit(n):
+                if n.get("kind") == "CompoundStmt":
+                    inner = [c for c in n.get("inner", []) if isinstance(c, dict)]
+                    for a, b in zip(inner, inner[1:]):
+                        if is_fopen_assign(a):
+                            b2 = c2g.skip_parens(b)
+                            if b2.get("kind") == "BinaryOperator" and b2.get("opcode") == "=" and \
+                                    sl.strip(b2["inner"][0]).get("referencedDecl", {}).get("name") == "errval":
+                                found["errval"].append(b2["inner"][1])
+                            elif b2.get("kind") == "IfStmt" and sl.find_nodes(b2["inner"][1], lambda x: sl.callee_name(x) in sl.ABORTS):
+                                found["reopen"].append(b2["inner"][0])
+                            else:
+                                raise c2g.Unsupported("%s: the statement behind a fopen is neither `errval = ..` nor `if (..) SC_ABORT`" % fname)
+            sl.walk(F, visit)
+            if len(found["errval"]) != 1 or len(found["reopen"]) != 1:
+                raise c2g.Unsupported("%s: %d / %d judgements of fopen found, expected 1 / 1" % (fname, len(found["errval"]), len(found["reopen"])))
+            t, i = sl.emit_expr(found["errval"][0], "oc_fallback_errval_" + tag, fname + "/errval after the fopen of a rank > 0",
+                                want_params=["errno", "mpifile_file"], params=("mpifile_file", "errno"),
+                                comment="%s, MPI without MPI I/O: the value of `errval` after `mpifile->file = fopen (..)` in a rank's turn" % fname)
+            judge.append((t, i))
+            t, i = sl.emit_cond(found["reopen"][0], "oc_fallback_reopen_bad_" + tag, fname + "/re-open of rank 0",
+                                params=("mpifile_file", "errno"),
+                                comment="%s: the condition on which the re-open of rank 0 ends in SC_ABORT" % fname)
+            judge.append((t, i))
         # constants: enumerators used by the slices, amode enumerators, MPI_MODE_* bits, MPI_UNDEFINED, string codes
         out = ""
         for nm in "ACB":
@@ -362,6 +399,8 @@ def register(GROUPS, c2g, incs, REPO, HERE, STRUCTS, Group):
         fn = c2g.find_function(c2g.clang_ast(simc, "MPI_Error_class", [simdir]), "MPI_Error_class")
         t, i = c2g.translate_function(fn, gname="sim_MPI_Error_class", extra_params=[("errorclass", "Z")])
         g.add(t, i)
+        for t, i in judge:
+            g.add(t, i)
         for t, i in texts:
             g.add(t, i)
         return g, [f, os.path.join(REPO, "src", "sc_mpi.h"), os.path.join(REPO, "src", "sc_io.h"), mioh,
